@@ -51,6 +51,51 @@ CHECKS["C17"] = dict(
     design_ref="DESIGN.md 4 C17",
 )
 
+CHECKS["C02"] = dict(
+    technique=LPE,
+    text="remove / drop_measurement / remove_all / Measurement.remove(_all) with every vocabulary query shape (symbolic operators and "
+    "right-hand sides, measurement filters) on 3 symbolic points: return value == number of model matches, surviving contents == "
+    "model in the same order, index invariant, then a symbolic time read and optionally a further insert; all feasible paths.",
+    design_ref="DESIGN.md 4 C02",
+)
+CHECKS["C03"] = dict(
+    technique=LPE,
+    text="update / update_all / Measurement.update(_all) for 20 argument combinations (static and callable time, measurement, tags, "
+    "fields, unset_* incl. a key set by the same call) x query shapes on 2-3 symbolic points: return value == number of points "
+    "whose content changed in the model, contents == model (merge semantics, order), index invariant, then a symbolic read.",
+    design_ref="DESIGN.md 4 C03",
+)
+CHECKS["C06"] = dict(
+    technique=LPE,
+    text="Every operation skeleton up to depth 3 (thorough 4; plus hand-picked depth 5-6) over 12 operations from an empty database with "
+    "symbolic times: after every step a valid index must equal Index().build(storage) in canonical form, a non-decreasing insert "
+    "must keep it valid, every read must leave it valid; plus one Index.remove/update/insert step from an arbitrary built index "
+    "for every removal subset (inductive step).",
+    design_ref="DESIGN.md 3, 4 C06",
+)
+CHECKS["C07"] = dict(
+    technique=LPE,
+    text="All exploration getters, len, iteration and all() of the database and of Measurement handles compared with the model for "
+    "measurement filters {none,m,n,zz} on 3 symbolic points (measurement, tags incl. None/absent, fields incl. None/absent, "
+    "times in any order), after optional remove/update/drop/remove_all, index valid / invalid / manually rebuilt, memory and "
+    "CSV (incl. tag values containing CR/LF).",
+    design_ref="DESIGN.md 4 C07",
+)
+CHECKS["C10"] = dict(
+    technique=LPE,
+    text="Every Measurement method (reads, getters, insert(_multiple), remove(_all), update(_all)) driven through db.measurement(name) "
+    "for name in {m, n, zz, ''} on 3 points with symbolic measurement, compared with the model restricted to name; fresh and "
+    "stale handles (obtained before drop_measurement / remove_all); contents of other measurements must be untouched.",
+    design_ref="DESIGN.md 4 C10",
+)
+CHECKS["C11"] = dict(
+    technique=LPE,
+    text="Failing calls with a symbolic fault position (non-Point at position j of insert_multiple; update callable raising or returning "
+    "an invalid value on its i-th call; 13 invalid static arguments): the call must raise, contents must equal the model's old "
+    "contents (plus the inserted prefix), the index invariant must hold, and a following write and all reads must be correct.",
+    design_ref="DESIGN.md 4 C11",
+)
+
 NOT_YET = {}
 
 
